@@ -45,6 +45,7 @@ var (
 	yodaRE     = regexp.MustCompile(`^consider to change order in expression to (.*)$`)
 	quoteRepl  = regexp.MustCompile(`^replace '(.*)' with '(.*)'$`)
 	suggestion = regexp.MustCompile(`^suggestion: (.*)$`)
+	couldRepl  = regexp.MustCompile(`^(func.*) could be replaced with (func.*)$`)
 )
 
 // Segments extracts (original, replacement) code segments from a message; original may
@@ -131,6 +132,26 @@ func Locate(fset *token.FileSet, f *ast.File, src []byte, checker string, w lint
 		// messages of these checkers quote fragments (a callee, a pattern, a literal, a word),
 		// not a whole replacement for the flagged node
 		return nil, "none"
+	}
+	if m := couldRepl.FindStringSubmatch(strings.SplitN(w.Text, "\n", 2)[0]); m != nil && checker == "paramTypeCombine" {
+		// the message prints the function *type*; in the file it is the signature of a declaration:
+		// everything from the (type) parameter list to the end of the results is replaced
+		for _, d := range f.Decls {
+			fd, ok := d.(*ast.FuncDecl)
+			if !ok || fd.Type.Pos() != w.Pos {
+				continue
+			}
+			if norm(printNode(fset, fd.Type)) != norm(m[1]) {
+				return nil, "inconclusive:original-not-matched"
+			}
+			from := fd.Type.Params.Pos()
+			if fd.Type.TypeParams != nil {
+				from = fd.Type.TypeParams.Pos()
+			}
+			a, b := tf.Offset(from), tf.Offset(fd.Type.End())
+			return &Rewrite{From: a, To: b, New: strings.TrimPrefix(m[2], "func"), Old: string(src[a:b]), Source: "message", Kind: "signature", NStmts: 0}, ""
+		}
+		return nil, "inconclusive:no-node-at-pos"
 	}
 	orig, repl, ok := Segments(w.Text)
 	if !ok {
@@ -289,6 +310,9 @@ func ParsesAs(kind, text string) error {
 		return err
 	case "switch-header":
 		_, err := parser.ParseFile(token.NewFileSet(), "x.go", "package p\nfunc _() {\n"+text+"{\n}\n}\n", 0)
+		return err
+	case "signature":
+		_, err := parser.ParseFile(token.NewFileSet(), "x.go", "package p\nfunc _"+text+" {\n}\n", 0)
 		return err
 	}
 	return nil
